@@ -373,6 +373,7 @@ Quiescent ==
            heldN == IF Has("held") THEN Ev.held ELSE <<0, 0>>
            connStuck == {e \in {1, 2} : fp[e] /\ PendConn(e) > Unanswered(e) /\ Unanswered(e) < cfg[Oth(e)].connect_q /\ ended[e] = "running"}
            connDead == {e \in {1, 2} : fp[e] /\ e \in misc.lfin /\ ended[e] = "running" /\ \E i \in pend : ops[i].kind = "client_connect" /\ ops[i].ep = e}
+           closeStuck == \E i \in pend : ops[i].kind = "close" /\ ended[ops[i].ep] = "running"
            accStuck == {e \in {1, 2} : fp[e] /\ PendAccept(e) /\ Unanswered(Oth(e)) > heldN[e] /\ ended[e] = "running"}
            settled == Has("settled") /\ Ev.settled
            live == ~misc.faulted /\ ~Has("late")     \* liveness verdicts apply (healthy transport, main quiescence point)
@@ -382,6 +383,8 @@ Quiescent ==
                           <<live /\ lost # {}, "C01", "completed send not delivered although the receiver keeps receiving">>,
                           <<live /\ leak # {}, "C03", "credit leak: sender pool differs from buffer minus outstanding bytes">>,
                           <<live /\ rleak # {}, "C03", "credit leak: credit the receiver decided to return never reached the wire">>,
+                          <<live /\ closeStuck, "C03", "closing a receiver is blocked by another operation's abandoned place in the dispatcher queue">>,
+                          <<live /\ closeStuck, "C11", "closing a receiver never completes on a healthy connection">>,
                           <<live /\ noeos # {}, "C11", "receiver still waiting although the sender's finish was delivered">>,
                           <<live /\ noclosed # {}, "C11", "closed() still pending although the receiver's close/finish was delivered">>,
                           <<live /\ deadsend # {}, "C11", "send still pending although the receiver's close/finish was delivered">>,
